@@ -197,3 +197,25 @@ def alpha(node: ast.AST) -> str:
                      or (isinstance(c.func, ast.Attribute) and c.func.attr in ("join", "extend", "update"))):
             c.args[0] = ast.GeneratorExp(elt=c.args[0].elt, generators=c.args[0].generators)
     return norm(ast.fix_missing_locations(t))
+
+
+def comp_as_loop(st: ast.stmt) -> ast.For | None:
+    """``X = {K: V for T in IT if C}`` (or a list comprehension) read back as the loop that fills X -- the form rules that reason
+    about loop bodies use.  Single generator only."""
+    import copy
+    if not (isinstance(st, ast.Assign) and len(st.targets) == 1 and isinstance(st.targets[0], ast.Name) and isinstance(st.value, (ast.DictComp, ast.ListComp))
+            and len(st.value.generators) == 1):
+        return None
+    x = st.targets[0].id
+    c = st.value
+    g = c.generators[0]
+    if isinstance(c, ast.DictComp):
+        store: ast.stmt = ast.Assign(targets=[ast.Subscript(value=ast.Name(id=x, ctx=ast.Load()), slice=copy.deepcopy(c.key), ctx=ast.Store())], value=copy.deepcopy(c.value))
+    else:
+        store = ast.Expr(value=ast.Call(func=ast.Attribute(value=ast.Name(id=x, ctx=ast.Load()), attr="append", ctx=ast.Load()), args=[copy.deepcopy(c.elt)], keywords=[]))
+    body: list[ast.stmt] = [store]
+    for cond in reversed(g.ifs):
+        body = [ast.If(test=copy.deepcopy(cond), body=body, orelse=[])]
+    lp = ast.For(target=copy.deepcopy(g.target), iter=copy.deepcopy(g.iter), body=body, orelse=[])
+    ast.copy_location(lp, st)
+    return ast.fix_missing_locations(lp)
